@@ -24,6 +24,139 @@ def documented_keys(root: str):
     return keys
 
 
+def _first_prefix_helper(ctx, g):
+    """g(filename, prefixes): for p in prefixes: if filename.startswith(p): return True, p  /  return False, None"""
+    t = ctx.types
+    if len(g.params) < 2:
+        return None
+    fn_, ps_ = g.params[-2], g.params[-1]
+    loops = list(t.nodes_in(g, ast.For))
+    rets = sorted(t.nodes_in(g, ast.Return), key=lambda r: r.lineno)
+    if len(loops) != 1 or len(rets) != 2 or norm(loops[0].iter) != ps_:
+        return None
+    tv = norm(loops[0].target)
+    r0, r1 = rets
+    inside = [c for c, pol in paths.conditions(ctx.prog, r0, g) if pol]
+    if norm(r0.value) == "(True, %s)" % tv and norm(r1.value) == "(False, None)" and any(norm(c) == "%s.startswith(%s)" % (fn_, tv) for c in inside) \
+            and not list(t.nodes_in(g, (ast.Break, ast.Continue))):
+        return (fn_, ps_)
+    return None
+
+
+def _frame_stages(ctx, ia):
+    """is_app_frame as [(source text, flag)] + text of the final return, or None when a statement is not one of the known
+    first-match shapes (the caller then falls back to the plain two-loop reading)."""
+    t, p = ctx.types, ctx.prog
+    fn = ia.params[1]
+    env = {}
+
+    def src(e):
+        e = env.get(e.id, e) if isinstance(e, ast.Name) else e
+        if isinstance(e, ast.List) and len(e.elts) == 1:
+            e = e.elts[0]
+            e = env.get(e.id, e) if isinstance(e, ast.Name) else e
+        return norm(e)
+
+    def flag(e, binds=None):
+        if isinstance(e, ast.Name) and binds and e.id in binds:
+            e = binds[e.id]
+        return e.value if isinstance(e, ast.Constant) and isinstance(e.value, bool) else None
+
+    stages = []
+    body = [st for st in ia.node.body if not (isinstance(st, ast.Expr) and isinstance(st.value, ast.Constant))]
+    i = 0
+    final = None
+
+    def match_ret(ifst, value_name, found_test, binds=None):
+        """if <found_test>: return FLAG, <value_name>"""
+        if not (isinstance(ifst, ast.If) and not ifst.orelse and len(ifst.body) == 1 and isinstance(ifst.body[0], ast.Return)
+                and isinstance(ifst.body[0].value, ast.Tuple) and len(ifst.body[0].value.elts) == 2):
+            return None
+        if norm(ifst.test) != found_test or norm(ifst.body[0].value.elts[1]) != value_name:
+            return None
+        return flag(ifst.body[0].value.elts[0], binds)
+
+    def helper_call(st_):
+        """found, path = helper(filename, S)"""
+        if isinstance(st_, ast.Assign) and isinstance(st_.targets[0], ast.Tuple) and len(st_.targets[0].elts) == 2 and isinstance(st_.value, ast.Call):
+            tg = t.resolve_call(st_.value, ia).repo
+            if len(tg) == 1 and _first_prefix_helper(ctx, tg[0]) is not None and len(st_.value.args) == 2 and norm(st_.value.args[0]) == fn:
+                return norm(st_.targets[0].elts[0]), norm(st_.targets[0].elts[1]), st_.value.args[1]
+        return None
+
+    while i < len(body):
+        st_ = body[i]
+        nxt = body[i + 1] if i + 1 < len(body) else None
+        if isinstance(st_, ast.Assign) and len(st_.targets) == 1 and isinstance(st_.targets[0], ast.Name):
+            v = st_.value
+            # x = next((p for p in S if filename.startswith(p)), None); if x is not None: return FLAG, x
+            if isinstance(v, ast.Call) and norm(v.func) == "next" and len(v.args) == 2 and isinstance(v.args[0], ast.GeneratorExp) \
+                    and isinstance(v.args[1], ast.Constant) and v.args[1].value is None:
+                ge = v.args[0]
+                g0 = ge.generators[0]
+                if len(ge.generators) == 1 and norm(ge.elt) == norm(g0.target) and len(g0.ifs) == 1 and norm(g0.ifs[0]) == "%s.startswith(%s)" % (fn, norm(g0.target)):
+                    fl = match_ret(nxt, st_.targets[0].id, "%s is not None" % st_.targets[0].id)
+                    if fl is None:
+                        return None
+                    stages.append((src(g0.iter), fl))
+                    i += 2
+                    continue
+                return None
+            env[st_.targets[0].id] = v
+            i += 1
+            continue
+        hc = helper_call(st_)
+        if hc is not None:
+            fl = match_ret(nxt, hc[1], hc[0])
+            if fl is None:
+                return None
+            stages.append((src(hc[2]), fl))
+            i += 2
+            continue
+        if isinstance(st_, ast.For):
+            # for p in S: if filename.startswith(p): return FLAG, p
+            if len(st_.body) == 1 and not st_.orelse and isinstance(st_.body[0], ast.If):
+                fl = match_ret(st_.body[0], norm(st_.target), "%s.startswith(%s)" % (fn, norm(st_.target)))
+                if fl is not None:
+                    stages.append((src(st_.iter), fl))
+                    i += 1
+                    continue
+            # for prefixes, in_app in ((S1, F1), (S2, F2)): found, path = helper(filename, prefixes); if found: return in_app, path
+            if isinstance(st_.iter, (ast.Tuple, ast.List)) and isinstance(st_.target, ast.Tuple) and len(st_.target.elts) == 2 and len(st_.body) == 2 and not st_.orelse:
+                a_, b_ = [norm(x) for x in st_.target.elts]
+                hc = helper_call(st_.body[0])
+                if hc is None or norm(hc[2]) != a_:
+                    return None
+                for pair in st_.iter.elts:
+                    if not (isinstance(pair, (ast.Tuple, ast.List)) and len(pair.elts) == 2):
+                        return None
+                    fl = match_ret(st_.body[1], hc[1], hc[0], {b_: pair.elts[1]})
+                    if fl is None:
+                        return None
+                    stages.append((src(pair.elts[0]), fl))
+                i += 1
+                continue
+            return None
+        if isinstance(st_, ast.If):
+            # if filename.startswith(R): return True, R
+            if not st_.orelse and len(st_.body) == 1 and isinstance(st_.body[0], ast.Return) and isinstance(st_.test, ast.Call) and isinstance(st_.test.func, ast.Attribute) \
+                    and st_.test.func.attr == "startswith" and norm(st_.test.func.value) == fn and len(st_.test.args) == 1 \
+                    and isinstance(st_.body[0].value, ast.Tuple) and len(st_.body[0].value.elts) == 2 and src(st_.test.args[0]) == src(st_.body[0].value.elts[1]):
+                fl = flag(st_.body[0].value.elts[0])
+                if fl is None:
+                    return None
+                stages.append((src(st_.test.args[0]), fl))
+                i += 1
+                continue
+            return None
+        if isinstance(st_, ast.Return) and i == len(body) - 1:
+            final = norm(st_.value) if st_.value is not None else "None"
+            i += 1
+            continue
+        return None
+    return (stages, final) if final is not None else None
+
+
 def run(ctx: Ctx, tier: str) -> Result:
     res = Result("C19")
     res.explanation = (
@@ -201,6 +334,19 @@ def run(ctx: Ctx, tier: str) -> Result:
         seq.append((src, val, cond))
     want_order = ["IN_APP_EXCLUDE", "IN_APP_INCLUDE", "APP_ROOT", None]
     ok = len(seq) == 4
+    st_ = _frame_stages(ctx, ia)
+    if st_ is not None:
+        # the function read as a sequence of first-match stages (loops, next() over a generator, a first-prefix helper, a loop over
+        # (prefixes, flag) pairs): (source, flag) in order, then the final answer
+        stages, final = st_
+        oks = len(stages) == 3 and "IN_APP_EXCLUDE" in stages[0][0] and stages[0][1] is False and "IN_APP_INCLUDE" in stages[1][0] and stages[1][1] is True \
+            and "APP_ROOT" in stages[2][0] and stages[2][1] is True and final == "(False, None)"
+        if oks:
+            res.ok("C19.FRAME", {"order": "exclude (wins) -> include -> app root -> not an app frame", "stages": [(a[-30:], b) for a, b in stages]})
+        else:
+            res.fail(Finding("C19.FRAME", ia.qname, "<exclude, include, app root, none>", ia.loc(),
+                             "is_app_frame does not test exclude prefixes first, then include prefixes, then the app root, else (False, None): %s then %s" % (stages, final)))
+        ok = None
     if ok:
         (s0, v0, c0), (s1, v1, c1), (s2, v2, c2), (s3, v3, c3) = seq
         ok = s0 is not None and s0.endswith("IN_APP_EXCLUDE") and v0.startswith("(False,") and \
@@ -208,7 +354,9 @@ def run(ctx: Ctx, tier: str) -> Result:
             s2 is None and "APP_ROOT" in v2 and v2.startswith("(True,") and any("APP_ROOT" in c and "startswith" in c for c in c2) and \
             s3 is None and v3 == "(False, None)" and \
             all(any(c.startswith("%s.startswith(" % fn[1:]) for c in cc) for cc in (c0, c1, c2))
-    if ok:
+    if ok is None:
+        pass
+    elif ok:
         res.ok("C19.FRAME", {"order": "exclude (wins) -> include -> app root -> not an app frame", "returns": [v for _, v, _ in seq]})
     else:
         res.fail(Finding("C19.FRAME", ia.qname, "<exclude, include, app root, none>", ia.loc(),
